@@ -181,24 +181,28 @@ class DryRunRenamer:
         destination_path: Path,
         override: bool = False,
     ) -> None:
+        # Paths are relative to the working directory, which changes between input
+        # directories - the bookkeeping has to use absolute paths
+        source_key = Path(os.path.abspath(source_path))
+        destination_key = Path(os.path.abspath(destination_path))
         source_exists = (
-            source_path.exists() or source_path in self.created_paths
-        ) and source_path not in self.removed_paths
+            source_path.exists() or source_key in self.created_paths
+        ) and source_key not in self.removed_paths
         if not source_exists:
             raise FileNotFoundError(f"No such file or directory: {source_path}")
 
         destination_exists = (
-            destination_path.exists() or destination_path in self.created_paths
-        ) and destination_path not in self.removed_paths
+            destination_path.exists() or destination_key in self.created_paths
+        ) and destination_key not in self.removed_paths
         if destination_exists and not override:
             raise FileExistsError(
                 f"Destination file already exists: {destination_path}"
             )
 
-        self.removed_paths.add(source_path)
-        self.created_paths.add(destination_path)
-        self.removed_paths.discard(destination_path)
-        self.created_paths.discard(source_path)
+        self.removed_paths.add(source_key)
+        self.created_paths.add(destination_key)
+        self.removed_paths.discard(destination_key)
+        self.created_paths.discard(source_key)
 
 
 class PrintingRenamerWrapper:
